@@ -35,6 +35,7 @@ fn run(a: &[String]) -> String {
         "has_storage_layer" => scenarios::has_storage_layer(&a[1]),
         "journal_clear_leak" => scenarios::journal_clear_leak(),
         "floor_gas_used" => scenarios::floor_gas_used(),
+        "reward_amount" => scenarios::reward_amount(),
         "reward_paid" => scenarios::reward_paid(&a[1]),
         "selfdestruct_sum" => scenarios::selfdestruct_sum(),
         "reimburse_exact_gas" => scenarios::reimburse_exact_gas(),
